@@ -37,7 +37,7 @@ pub fn lifetimes(out: &ConcOut) -> BTreeMap<u32, Vec<Life>> {
     let ents = history_of(out);
     for e in &ents {
         let new = match &e.op {
-            HOp::Insert { new, .. } => Some(*new),
+            HOp::Insert { new, .. } | HOp::Put { new } => Some(*new),
             HOp::TryInsert { new, ret: Ok(()) } => Some(*new),
             HOp::Compute { seen: Some(_), out: Some(n), .. } => Some(*n),
             _ => None,
@@ -70,6 +70,14 @@ pub fn lifetimes(out: &ConcOut) -> BTreeMap<u32, Vec<Life>> {
             HOp::Compute { seen: Some(x), .. } => kill(Some(*x), true, lives),
             HOp::CondRemove { v } => kill(Some(*v), false, lives),
             HOp::ForceRemove => kill(None, false, lives),
+            // a blind write displaces whatever the key held (which value that was is not observable)
+            HOp::Put { new } => {
+                for l in lives.iter_mut() {
+                    if l.vid != *new {
+                        l.die_inv = l.die_inv.min(e.inv);
+                    }
+                }
+            }
             _ => {}
         }
     }
@@ -162,10 +170,12 @@ fn judge_iteration(out: &ConcOut, lives: &BTreeMap<u32, Vec<Life>>, kind: u8, fr
         }
     }
     // (3) termination bound
-    let inserts = out.recs.ops.iter().filter(|e| e.inv <= to && e.resp >= from && matches!(e.op, HOp::Insert { .. } | HOp::TryInsert { .. })).count();
+    // every insertion that began before the iteration ended may have contributed an entry (earlier
+    // ones enlarged the map, overlapping ones may be seen or not)
+    let inserts = out.recs.ops.iter().filter(|e| e.inv <= to && matches!(e.op, HOp::Insert { .. } | HOp::TryInsert { .. } | HOp::Put { .. })).count();
     let bound = 2 * (out.init.len() + inserts) + 16;
     if yields.len() > bound {
-        return Err(format!("{} yielded {} items; with {} initial entries and {} overlapping inserts at most {} are possible", who, yields.len(), out.init.len(), inserts, bound));
+        return Err(format!("{} yielded {} items; with {} initial entries and {} earlier or overlapping inserts at most {} are possible", who, yields.len(), out.init.len(), inserts, bound));
     }
     Ok(())
 }
